@@ -316,12 +316,39 @@ pub struct LParams {
     pub n: usize,
     pub max_l: usize,
     pub two_ops: bool,
+    /// large mode: instead of all shapes, the hub families with these edge counts
+    #[serde(default)]
+    pub large: Vec<usize>,
+}
+
+/// Hub-heavy multigraphs on 3 nodes with `k` edges (adjacency lists far longer
+/// than in the exhaustively enumerated shapes).
+pub fn large_shapes(ks: &[usize]) -> Vec<Vec<(K, K)>> {
+    let fams: [fn(usize) -> (K, K); 5] = [
+        |i| (0, 1 + (i % 2) as K),
+        |i| (1 + (i % 2) as K, 0),
+        |_| (0, 1),
+        |_| (0, 0),
+        |i| match i % 4 {
+            0 => (0, 1),
+            1 => (1, 0),
+            2 => (0, 0),
+            _ => (2, 0),
+        },
+    ];
+    let mut v = Vec::new();
+    for k in ks {
+        for f in fams.iter() {
+            v.push((0..*k).map(|i| f(i)).collect());
+        }
+    }
+    v
 }
 
 pub fn sweep<F: Fl>(job: &Job, out: &mut Out) {
     let p: LParams = serde_json::from_value(job.params.clone()).expect("loopx params");
     let prop = job.property.as_str();
-    let all = shapes::<F>(p.n, p.max_l);
+    let all = if p.large.is_empty() { shapes::<F>(p.n, p.max_l) } else { large_shapes(&p.large) };
     let sops = script_ops(p.n);
     let report = |out: &mut Out, c: &LCase, class: String, what: String| {
         out.report(Violation {
